@@ -70,6 +70,9 @@ def base_layers():
       L("BatchNormalization", "bn", axis=-1),
       L("AveragePooling2D", "ap", pool_size=(2, 2)),
       L("GlobalAveragePooling2D", "gap"),
+      # a second layer served by the same class entry
+      L("AveragePooling2D", "ap2", pool_size=(3, 3)),
+      L("GlobalAveragePooling2D", "gap2"),
       L("Flatten", "flat"),
       dict(L("MyLayer", "custom"), registered_name="Custom>MyLayer"),
       L("ReLU", "relu6", max_value=6.0, negative_slope=0.0, threshold=0.0),
@@ -111,8 +114,10 @@ def qcfg():
       "QActivation": {"relu": "ACT_relu", "leakyrelu": "ACT_leaky"},
       "QBatchNormalization": {"gamma_quantizer": "G_bn",
                               "beta_quantizer": "BE_bn"},
-      "QAveragePooling2D": {"average_quantizer": "AVG_ap"},
-      "QGlobalAveragePooling2D": {"average_quantizer": "AVG_gap"},
+      "QAveragePooling2D": {"average_quantizer": "AVG_ap",
+                            "activation_quantizer": "ACT_ap"},
+      "QGlobalAveragePooling2D": {"average_quantizer": "AVG_gap",
+                                  "activation_quantizer": "ACT_gap"},
       # a name entry that is present but empty opts the layer out although a
       # class entry exists (name entries take precedence)
       "d_unselected": None,
@@ -250,6 +255,87 @@ def rule_activation_names(rep, repo):
                (before, e), loc=loc)
 
 
+def rule_full_dictionary(rep, repo, unit, loc):
+  """Every class entry carries every optional key as well (an activation
+  quantizer, the batch-norm moving-statistics quantizers) and every layer has
+  a twin served by the same entry: what a layer becomes must not depend on
+  the twin converted before it, the dictionary must come back unchanged, and
+  a configured activation quantizer is the activation of the converted
+  layer."""
+  cfg = qcfg()
+  for key, ent in cfg.items():
+    if not isinstance(ent, dict) or not ent or key in ("QActivation",
+                                                        "d_optout",
+                                                        "act_optout"):
+      continue
+    ent.setdefault("activation_quantizer", "ACT_" + key)
+    if key == "QBatchNormalization":
+      ent.setdefault("mean_quantizer", "MEAN_bn")
+      ent.setdefault("variance_quantizer", "VAR_bn")
+  src = []
+  for lyr in base_layers():
+    if lyr["class_name"] == "InputLayer":
+      continue
+    twin = _copy.deepcopy(lyr)
+    twin["name"] = twin["config"]["name"] = lyr["config"]["name"] + "_twin"
+    src += [lyr, twin]
+  alone = {}
+  for lyr in src:
+    name = lyr["config"]["name"]
+    qc = _copy.deepcopy(cfg)
+    try:
+      jm, _, _ = run_mq(repo, [_copy.deepcopy(lyr)], qc)
+    except PyRaise as e:
+      rep.fail("R6", unit, "raises:%s:%s" % (lyr["class_name"], e.exc_name),
+               "model_quantize raises %s on a %s layer with a dictionary "
+               "whose entries carry every optional key" % (
+                   e, lyr["class_name"]), loc=loc)
+      continue
+    alone[name] = by_name(jm)[name]
+    rep.check(qc == cfg, "R5", unit, "quantizer_config-modified",
+              "the caller's quantizer dictionary (entries with every "
+              "optional key) was modified while converting a %s layer: %r" %
+              (lyr["class_name"], _diff(cfg, qc)), loc=loc,
+              instance="full dictionary/" + lyr["class_name"])
+    # a configured activation quantizer is what the converted layer applies
+    got = alone[name]
+    ent = cfg.get(name, cfg.get(got["class_name"]))
+    if got["class_name"] != lyr["class_name"] and isinstance(ent, dict) and \
+        got["class_name"] not in ("QActivation", "QBatchNormalization") and \
+        "activation_quantizer" in ent:
+      rep.check(got["config"].get("activation") ==
+                ent["activation_quantizer"], "R7", unit,
+                "configured-activation-quantizer-not-applied:" +
+                got["class_name"],
+                "layer %s: the entry configures activation_quantizer=%r but "
+                "the converted layer has activation=%r" % (
+                    name, ent["activation_quantizer"],
+                    got["config"].get("activation")), loc=loc,
+                instance="full dictionary/" + name,
+                observed=repr(got["config"].get("activation")))
+  for order, lbl in ((list(src), "model order"),
+                     (list(reversed(src)), "reversed order")):
+    qc = _copy.deepcopy(cfg)
+    try:
+      jm_all, _, _ = run_mq(repo, _copy.deepcopy(order), qc)
+    except PyRaise:
+      continue
+    rep.check(qc == cfg, "R5", unit, "quantizer_config-modified",
+              "the caller's quantizer dictionary was modified while "
+              "converting the model with twin layers: %r" % (_diff(cfg, qc),),
+              loc=loc, instance="full dictionary/whole model/" + lbl)
+    together = by_name(jm_all)
+    for name, one in sorted(alone.items()):
+      got = together.get(name)
+      rep.check(got is not None and norm(got) == norm(one), "R1", unit,
+                "conversion-depends-on-other-layers:" + one["class_name"],
+                "layer %s (dictionary entries with every optional key) is "
+                "converted differently inside the whole model (%s) than "
+                "alone: %r" % (name, lbl, _diff(one, got)
+                               if got is not None else "missing"), loc=loc,
+                instance="full dictionary/%s/%s" % (name, lbl))
+
+
 def run(rep, repo, tier):
   um = repo.module(UM)
   unit = "%s::model_quantize" % um.relpath
@@ -361,6 +447,8 @@ def run(rep, repo, tier):
                  "model_quantize raises %s on Activation layers with %s" %
                  (e, dname), loc=loc)
 
+  rule_full_dictionary(rep, repo, unit, loc)
+
   def expect(name, cls, **keys):
     l = converted.get(name)
     if l is None:
@@ -418,8 +506,12 @@ def run(rep, repo, tier):
   expect("act_softmax", "Activation", activation="softmax")
   expect("bn", "QBatchNormalization", gamma_quantizer="G_bn",
          beta_quantizer="BE_bn")
-  expect("ap", "QAveragePooling2D", average_quantizer="AVG_ap")
-  expect("gap", "QGlobalAveragePooling2D", average_quantizer="AVG_gap")
+  for nm in ("ap", "ap2"):
+    expect(nm, "QAveragePooling2D", average_quantizer="AVG_ap",
+           activation="ACT_ap")
+  for nm in ("gap", "gap2"):
+    expect(nm, "QGlobalAveragePooling2D", average_quantizer="AVG_gap",
+           activation="ACT_gap")
   expect("relu6", "QActivation", activation="ACT_relu")
   expect("leaky", "QActivation", activation="ACT_leaky")
   expect("relu_leaky", "QActivation", activation="ACT_leaky")
